@@ -48,3 +48,37 @@ Section NLR.
 
   Definition init_cfg (pos : N) (d : tree) : config := mkCfg [(O, d)] pos [].
 End NLR.
+
+(* The same machine over an explicit token list (the classical LR configuration
+   stack + remaining input); the lookahead is the next token or STOP at the end. *)
+Section LRun.
+  Variable g : grammar.
+  Variable tb : table.
+  Variable stop_id : N.
+
+  Definition tok : Type := (N * N * N)%type.
+  Definition la (inp : list tok) : N :=
+    match inp with [] => stop_id | (y, _, _) :: _ => y end.
+
+  Inductive lstep : stack * list tok -> stack * list tok -> Prop :=
+  | ls_shift st y s e rest s' :
+      In (Shift s') (cell tb (top_state st) y) ->
+      lstep (st, (y, s, e) :: rest) ((s', TLeaf y s e) :: st, rest)
+  | ls_reduce st inp p pr popped rest s' ns ne :
+      In (Reduce p) (cell tb (top_state st) (la inp)) ->
+      get_prod g p = Some pr ->
+      st = popped ++ rest -> length popped = length (rhs pr) ->
+      goto tb (top_state rest) (lhs pr) = Some s' ->
+      lstep (st, inp) ((s', TNode p ns ne (rev (map snd popped))) :: rest, inp).
+
+  Inductive lsteps : stack * list tok -> stack * list tok -> Prop :=
+  | lss_refl c : lsteps c c
+  | lss_step c1 c2 c3 : lstep c1 c2 -> lsteps c2 c3 -> lsteps c1 c3.
+
+  Lemma lsteps_trans c1 c2 c3 : lsteps c1 c2 -> lsteps c2 c3 -> lsteps c1 c3.
+  Proof. induction 1; [auto|]. intros H3. econstructor; [eassumption|auto]. Qed.
+
+  Definition laccepts (st : stack) (t : tree) : Prop :=
+    In Accept (cell tb (top_state st) stop_id) /\
+    exists s1, nth_error (rev st) 1 = Some (s1, t).
+End LRun.
